@@ -2,6 +2,8 @@ package c14
 
 import (
 	"fmt"
+	"runtime"
+	"runtime/debug"
 	"strings"
 	"testing"
 
@@ -32,6 +34,21 @@ type tsdHistory struct {
 	decPuts  int
 	classes  map[string]int
 	reusedRd int
+
+	// owners: pooled decoders / stream readers alive across steps (tsd_owners_test.go)
+	live                  []*owner
+	writers               []*openWriter
+	streams               []*storedStream
+	holders               map[any][]string
+	aliased               string
+	ownerSeq              int
+	maxLive               int
+	lastReader            int
+	lastWriter            int
+	interleavedWrites     int // appends in turns by different pooled encoders that are both in the middle of a block
+	interleaved           int // reads in turns by different owners that are both in the middle of a block
+	interleavedAfterDrain int // ... after some reader of this case had been drained and closed
+	drainedClosed         int
 }
 
 func (h *tsdHistory) note(f string, a ...any) { h.log = append(h.log, fmt.Sprintf(f, a...)) }
@@ -102,8 +119,16 @@ func (h *tsdHistory) read(t *rapid.T, dec *encoding.TSDDecoder, how string) {
 // blocks, abandoned half-written blocks returned to the pool, flushed and unflushed leftovers,
 // half-read blocks, a Reset with data that is too short - a block written afterwards decodes to
 // exactly its own slots and values, through every read path.
+//
+// Owners (tsd_owners_test.go) add the dimension "several pooled objects alive at once": pooled decoders
+// and multi-field stream readers with cursors that survive between steps, advanced in turns at slot
+// granularity, readers drained / closed early / asked HasNext again after the end, stream writers open
+// side by side. Every owner reads exactly its own block.
 func TestTSDReuseHistory(t *testing.T) {
+	defer runtime.GOMAXPROCS(runtime.GOMAXPROCS(1)) // sync.Pool is per P: see tsd_owners_test.go
 	rapid.Check(t, func(t *rapid.T) {
+		defer debug.SetGCPercent(debug.SetGCPercent(-1))
+		drainDecoderPool()
 		h := &tsdHistory{usedDec: map[*encoding.TSDDecoder]bool{}, classes: map[string]int{}}
 		actions := map[string]func(*rapid.T){
 			"": func(t *rapid.T) { h.step++ },
@@ -112,6 +137,7 @@ func TestTSDReuseHistory(t *testing.T) {
 				api := rapid.SampledFrom([]string{"append", "emit"}).Draw(t, h.l("api"))
 				blk, _ := genBlock(t, h.l("b"), api)
 				enc := encoding.GetTSDEncoder(blk.start)
+				h.acquire(enc, "encodePool")
 				h.encode(t, enc, blk, api, h.poolPuts > 0, "encodePool")
 				if rapid.Bool().Draw(t, h.l("plainReset")) {
 					enc.Reset() // series merger: plain Reset() after BytesWithoutTime()
@@ -120,6 +146,7 @@ func TestTSDReuseHistory(t *testing.T) {
 					h.heldEnc = append(h.heldEnc, enc)
 				} else {
 					encoding.ReleaseTSDEncoder(enc)
+					h.giveUp(enc)
 					h.poolPuts++
 				}
 			},
@@ -137,6 +164,7 @@ func TestTSDReuseHistory(t *testing.T) {
 			"encodeNew": func(t *rapid.T) {
 				blk, _ := genBlock(t, h.l("b"), "append")
 				enc := encoding.NewTSDEncoder(blk.start)
+				h.acquire(enc, "encodeNew")
 				h.encode(t, enc, blk, "append", false, "encodeNew")
 				if len(h.heldEnc) < 3 {
 					h.heldEnc = append(h.heldEnc, enc)
@@ -145,8 +173,10 @@ func TestTSDReuseHistory(t *testing.T) {
 			// an error path: the encoder goes back to the pool (or stays held) in the middle of a block
 			"abandonPool": func(t *rapid.T) {
 				enc := encoding.GetTSDEncoder(rapid.Uint16Range(0, 4000).Draw(t, h.l("s")))
+				h.acquire(enc, "abandonPool")
 				h.dirty(t, enc)
 				encoding.ReleaseTSDEncoder(enc)
+				h.giveUp(enc)
 				h.poolPuts++
 				h.note("abandonPool")
 				h.classes["abandoned-encoder"]++
@@ -164,6 +194,8 @@ func TestTSDReuseHistory(t *testing.T) {
 			"emptyBlock": func(t *rapid.T) {
 				// no slot appended: Bytes() is documented to return nil
 				enc := encoding.GetTSDEncoder(rapid.Uint16Range(0, 4000).Draw(t, h.l("s")))
+				h.acquire(enc, "emptyBlock")
+				defer h.giveUp(enc)
 				data, err := enc.Bytes()
 				if err != nil || data != nil {
 					t.Fatalf("Bytes() of an encoder without slots = %x,%v; documented nil,nil", data, err)
@@ -178,6 +210,7 @@ func TestTSDReuseHistory(t *testing.T) {
 				}
 				i := rapid.IntRange(0, len(h.heldEnc)-1).Draw(t, h.l("which"))
 				encoding.ReleaseTSDEncoder(h.heldEnc[i])
+				h.giveUp(h.heldEnc[i])
 				h.heldEnc = append(h.heldEnc[:i], h.heldEnc[i+1:]...)
 				h.poolPuts++
 				h.note("releaseHeldEncoder")
@@ -187,11 +220,14 @@ func TestTSDReuseHistory(t *testing.T) {
 					t.Skip("nothing stored yet")
 				}
 				dec := encoding.GetTSDDecoder()
+				seenDecoders[dec] = struct{}{}
+				h.acquire(dec, "readPool")
 				h.read(t, dec, "readPool")
 				if rapid.IntRange(0, 3).Draw(t, h.l("hold")) == 0 && len(h.heldDec) < 3 {
 					h.heldDec = append(h.heldDec, dec)
 				} else {
 					encoding.ReleaseTSDDecoder(dec)
+					h.giveUp(dec)
 					delete(h.usedDec, dec)
 					h.decPuts++
 				}
@@ -207,6 +243,8 @@ func TestTSDReuseHistory(t *testing.T) {
 					t.Skip("nothing stored yet")
 				}
 				dec := encoding.NewTSDDecoder(nil)
+				seenDecoders[dec] = struct{}{}
+				h.acquire(dec, "readNew")
 				h.read(t, dec, "readNew")
 				if len(h.heldDec) < 3 {
 					h.heldDec = append(h.heldDec, dec)
@@ -219,7 +257,9 @@ func TestTSDReuseHistory(t *testing.T) {
 					dec = h.heldDec[rapid.IntRange(0, len(h.heldDec)-1).Draw(t, h.l("which"))]
 				} else {
 					dec = encoding.GetTSDDecoder()
-					defer func() { encoding.ReleaseTSDDecoder(dec); h.decPuts++ }()
+					seenDecoders[dec] = struct{}{}
+					h.acquire(dec, "badReset")
+					defer func() { encoding.ReleaseTSDDecoder(dec); h.giveUp(dec); h.decPuts++ }()
 				}
 				short := rapid.SliceOfN(rapid.Byte(), 0, 4).Draw(t, h.l("short"))
 				dec.Reset(short)
@@ -236,29 +276,60 @@ func TestTSDReuseHistory(t *testing.T) {
 				}
 				i := rapid.IntRange(0, len(h.heldDec)-1).Draw(t, h.l("which"))
 				encoding.ReleaseTSDDecoder(h.heldDec[i])
+				h.giveUp(h.heldDec[i])
 				delete(h.usedDec, h.heldDec[i])
 				h.heldDec = append(h.heldDec[:i], h.heldDec[i+1:]...)
 				h.decPuts++
 				h.note("releaseHeldDecoder")
 			},
 		}
+		for name, a := range h.ownerActions() {
+			actions[name] = a
+		}
+		// rapid draws the next action uniformly over the keys: owner steps are the slot-granular ones, so they
+		// get more keys; two rounds (~60 steps) keep the number of classic steps per case where it was
+		actions["ownStep2"], actions["ownStep3"], actions["ownStep4"] = actions["ownStep"], actions["ownStep"], actions["ownStep"]
+		actions["writerField2"], actions["ownReader2"] = actions["writerField"], actions["ownReader"]
+		t.Repeat(actions)
 		t.Repeat(actions)
 
+		// owners that are still alive complete their blocks / streams in turns, one slot each, and are closed
+		ownersAtEnd := len(h.live)
+		h.finishOwners(t)
+		// every stored stream is read once more by the ordinary loop of a reader of its own
+		for _, st := range h.streams {
+			o := &owner{id: -1, kind: "rd", st: st, r: encoding.NewTSDStreamReader(st.raw)}
+			for h.readerHasNext(t, o) {
+				h.readerNext(t, o, "")
+				o.cur.read(t, o.who(), -1)
+			}
+			o.r.Close()
+			if o.dec != nil {
+				h.giveUp(o.dec)
+			}
+		}
 		// final sweep: every stored block is read once more, completely, by one pooled decoder that
 		// is reused for all of them (whatever state the history left in the pool)
 		dec := encoding.GetTSDDecoder()
+		seenDecoders[dec] = struct{}{}
+		h.acquire(dec, "final sweep")
 		for i, sb := range h.stored {
 			path := fullPaths[rapid.IntRange(0, len(fullPaths)-1).Draw(t, fmt.Sprintf("sweep%d", i))]
 			resetDecoder(dec, sb.blk, sb.data, sb.withTime, false)
 			execRead(t, dec, sb.blk, readPlan{Path: path, StopAfter: -1, Lo: 1, Hi: 1})
 		}
 		encoding.ReleaseTSDDecoder(dec)
+		h.giveUp(dec)
 		// leave held objects in the pools: the next case starts from whatever this one left behind
+		// (encoders; the decoder pool is emptied at the start of a case)
 		for _, e := range h.heldEnc {
 			encoding.ReleaseTSDEncoder(e)
 		}
 		for _, d := range h.heldDec {
 			encoding.ReleaseTSDDecoder(d)
+		}
+		if h.aliased != "" {
+			t.Fatalf("pooled object owned twice: %s (history: %s)", h.aliased, strings.Join(shorten(h.log, 80), "; "))
 		}
 
 		nt := false
@@ -272,6 +343,18 @@ func TestTSDReuseHistory(t *testing.T) {
 			cl = append(cl, k)
 		}
 		cl = append(cl, fmt.Sprintf("blocks=%d", min(len(h.stored), 8)))
+		cl = append(cl, fmt.Sprintf("owners-alive-max=%d", h.maxLive), fmt.Sprintf("owners-alive-at-end=%d", ownersAtEnd))
+		if h.interleaved > 0 {
+			cl = append(cl, "owners-read-in-turns")
+			nt = true
+		}
+		if h.interleavedWrites > 0 {
+			cl = append(cl, "owners-write-in-turns")
+			nt = true
+		}
+		if h.interleavedAfterDrain > 0 {
+			cl = append(cl, "owners-read-in-turns-after-drained-reader")
+		}
 		if h.reusedRd > 0 {
 			cl = append(cl, "reused-decoder")
 		}
